@@ -150,6 +150,20 @@ theorem join_keeps_existing_cov (r : RVs α) (h : WF r) (inds : List String) (fi
     ∃ v, getCov r a b = .ok v ∧ getCov res.rvs a b = .ok (if fill ≠ 0 ∧ v = 0 then fill else v) :=
   join_cov_inside_value' h.nodup h.square hj ha hb hai hbi
 
+/-- `join(inds, name_template=…)`: an existing non-zero (co)variance between joined variables is
+    kept (blocks symmetric); zero entries below the diagonal get a new symbol in both triangles. -/
+theorem join_keeps_existing_cov_template (r : RVs α) (h : WF r) (hsym : SymBlocks r) (inds : List String)
+    (nm : Nat → Nat → Option α) (res : JoinResult α) (hj : join r inds (.template nm) = .ok res)
+    (a b : String) (ha : a ∈ names r) (hb : b ∈ names r) (hai : a ∈ inds) (hbi : b ∈ inds)
+    (v : α) (hv : getCov r a b = .ok v) (hv0 : v ≠ 0) : getCov res.rvs a b = .ok v :=
+  join_cov_inside_template' h.nodup h.square hsym hj ha hb hai hbi hv hv0
+
+/-- The matrix written by the `name_template` loop is symmetric and keeps every non-zero entry,
+    for every size. -/
+theorem name_template_symmetric (nm : Nat → Nat → Option α) (n : Nat) (M : Mat α) (hs : SymM M) :
+    SymM (nameMat nm n M).1 ∧ ∀ r c, M r c ≠ 0 → (nameMat nm n M).1 r c = M r c :=
+  nameMat_inv nm n M hs
+
 /-- `join` (any mode) does not change (co)variances of variables that are not joined. -/
 theorem join_covariances_outside (r : RVs α) (h : WF r) (inds : List String) (f : Fill α)
     (res : JoinResult α) (hj : join r inds f = .ok res) (a b : String)
@@ -173,6 +187,50 @@ theorem join_fill_zero_variance_witness :
         (.value (Entry.sym "F"))).toOption.bind (fun res => (getCov res.rvs "b" "b").toOption))
       = some (Entry.sym "F") := by
   decide
+
+/-- The position of the joined block is that of the first unjoined variable in `unjoin`'s output —
+    so `join` inherits `unjoin`'s reordering: the full statement "moved to the position of the first
+    of them" is false of the code. -/
+theorem join_order_witness :
+    (join ([⟨["a", "b", "c"], "IIV", true, [.num 0, .num 0, .num 0],
+        [[.sym "A", .sym "AB", .sym "AC"], [.sym "AB", .sym "B", .sym "BC"], [.sym "AC", .sym "BC", .sym "C"]]⟩,
+        normal "d" "IIV" (.num 0) (.sym "D")] : RVs Entry) ["c", "d"] (.value (.num 0))).toOption.map
+      (fun res => names res.rvs) = some ["c", "d", "a", "b"] := by
+  decide
+
+/-- `subs` renames the variables by `_subs_name` (and refuses a renaming that merges names). -/
+theorem subs_names (fe : α → α) (fn : String → String) (r res : RVs α) (h : subs fe fn r = .ok res) :
+    names res = (names r).map fn ∧ (names res).Nodup := by
+  obtain ⟨h1, h2⟩ := subs_ok h
+  exact ⟨by rw [h1, names_map_subs], h2⟩
+
+/-- `subs`: the (co)variance of two variables of one block is the substituted old one. -/
+theorem subs_covariances (fe : α → α) (fn : String → String) (r res : RVs α) (h : subs fe fn r = .ok res)
+    (hinj : ∀ x ∈ names r, ∀ y ∈ names r, fn x = fn y → x = y) (d : Dist α) (hd : d ∈ r)
+    (hsq : Square d) (hrows : d.var.length = d.names.length) (hrect : ∀ row ∈ d.var, row.length = d.names.length)
+    (a b : String) (ha : a ∈ d.names) (hb : b ∈ d.names) :
+    ∃ v, d.getCov a b = .ok v ∧ getCov res (fn a) (fn b) = .ok (fe v) :=
+  subs_cov_same' h hinj hd hsq hrows hrect ha hb
+
+/-- `JointNormalDistribution.__getitem__(collection)`: the distribution itself, or the selected
+    names in block order with … -/
+theorem dist_getitem_names (d : Dist α) (index : List String) (res : Dist α)
+    (h : distGetitem d index = .ok res) :
+    res = d ∨ res.names = d.names.filter (index.eraseDups.contains ·) := by
+  rcases distGetitem_ok h with h | h
+  · exact Or.inl h
+  · right; rw [h, pickDist_names]
+
+/-- … every variance and covariance of the selected variables unchanged. -/
+theorem dist_getitem_covariances (d : Dist α) (hj : d.joint = true) (hn : d.names.Nodup)
+    (index : List String) (res : Dist α) (h : distGetitem d index = .ok res) (a b : String)
+    (ha : a ∈ d.names) (hb : b ∈ d.names) (hai : a ∈ index) (hbi : b ∈ index) :
+    res.getCov a b = d.getCov a b := by
+  rcases distGetitem_ok h with h | h
+  · rw [h]
+  · rw [h]
+    exact pickDist_cov d hj hn _ ha hb (by simpa [List.mem_eraseDups] using hai)
+      (by simpa [List.mem_eraseDups] using hbi)
 
 /-! ## The overall covariance matrix -/
 
